@@ -71,30 +71,35 @@ def _lit_sig(lit: AST) -> Optional[Sig]:
 
 
 def positive_heads(stm: AST) -> list[tuple[Sig, str]]:
-    """predicates occurring as positive head atoms of a rule with the kind of head"""
+    """predicates occurring as positive head atoms of a rule with the kind of head (pools are expanded)"""
     res: list[tuple[Sig, str]] = []
     if stm.ast_type != ASTType.Rule:
         return res
-    h = stm.head
-    if h.ast_type == ASTType.Literal:
-        s = _lit_sig(h)
-        if s:
-            res.append((s, "plain"))
-    elif h.ast_type == ASTType.Aggregate:
-        for e in h.elements:
-            s = _lit_sig(e.literal)
+    try:
+        variants = list(stm.unpool())
+    except Exception:  # pylint: disable=broad-except
+        variants = [stm]
+    for var in variants:
+        h = var.head
+        if h.ast_type == ASTType.Literal:
+            s = _lit_sig(h)
             if s:
-                res.append((s, "choice"))
-    elif h.ast_type == ASTType.Disjunction:
-        for e in h.elements:
-            s = _lit_sig(e.literal)
-            if s:
-                res.append((s, "disjunction"))
-    elif h.ast_type == ASTType.HeadAggregate:
-        for e in h.elements:
-            s = _lit_sig(e.condition.literal)
-            if s:
-                res.append((s, "headaggregate"))
+                res.append((s, "plain"))
+        elif h.ast_type == ASTType.Aggregate:
+            for e in h.elements:
+                s = _lit_sig(e.literal)
+                if s:
+                    res.append((s, "choice"))
+        elif h.ast_type == ASTType.Disjunction:
+            for e in h.elements:
+                s = _lit_sig(e.literal)
+                if s:
+                    res.append((s, "disjunction"))
+        elif h.ast_type == ASTType.HeadAggregate:
+            for e in h.elements:
+                s = _lit_sig(e.condition.literal)
+                if s:
+                    res.append((s, "headaggregate"))
     return res
 
 
